@@ -2,4 +2,4 @@
     Directives: ExtrOcamlBasic only (bool, option, unit, prod, list, sumbool, sumor). *)
 From Coq Require Import ExtrOcamlBasic.
 From Qv Require Import Common.Bytes Gen.GenBdatRx Model.BdatTx Model.BdatRx Spec.BdatSpec Spec.BdatRxSpec.
-Extraction "m.ml" send_bdat spec_ok_C19_tx RX_KIB RX_CR_AFTER_LOOP rx_session spec_ok_C19_rx.
+Extraction "m.ml" send_bdat spec_ok_C19_tx RX_KIB RX_CR_AFTER_LOOP rx_session spec_ok_C19_rx rx_script spec_ok_C19_rxs.
